@@ -23,7 +23,9 @@ DOMAIN = [
 HEXLIKE = re.compile(r"^#(?:[0-9a-fA-F]{3}){1,2}([0-9a-fA-F]{2})?$")
 # identifier-like words, and words that start with ONE digit followed by a letter (other than the exponent letter) or underscore:
 # 3D, 2ND, 7up, 9_a  (several leading digits - 50K - are not accepted unquoted by the grammar and are not claimed by C05)
-BARE_SAFE = re.compile(r"^(?:[A-Za-z_]|[0-9](?=[A-DF-Za-df-z_]))[A-Za-z0-9_]*$")
+# (Latin-1 letters U+00C0-U+00FF are spelled out in the grammar's bare-word class; the handful of other code points that Python's
+# case-insensitive matching lets through as a side effect - dotted capital I, long s, Kelvin sign ... - are not claimed)
+BARE_SAFE = re.compile(r"^(?:[A-Za-z_\u00c0-\u00d6\u00d8-\u00f6\u00f8-\u00ff]|[0-9](?=[A-DF-Za-df-z_]))[A-Za-z0-9_\u00c0-\u00d6\u00d8-\u00f6\u00f8-\u00ff]*$")
 
 # value alternatives MapServer writes as a quoted string although the schema lists an enum
 QUOTED_ENUM = {("composite", "compop")}
@@ -103,9 +105,10 @@ WORDS = ["roads", "Layer 1", "my_layer", "a b c", "x", "Ünïcödé", "日本語
          # backslashes are content; a quote character directly behind one is an escaped quote
          "C:\\data\\x.tif", 'say \\"hi\\"', "it\\'s", "a\\\\b", 'C:\\\\maps\\\\\\"new roads\\"', "x\\n", "\\\\'q\\'", 'say "x" it\\\'s', "Napol'i", 'he said "i',
          # the word include inside a value, Unicode line separators and a form feed inside a value
-         "wms_include_items", "please include me", "sep\u2028here", "nel\u0085x", "ff\x0chere", "vt\x0bx"]
+         "wms_include_items", "please include me", "/srv/data/*.tif", "a/*b", "^[a-z/*]+$", "sep\u2028here", "nel\u0085x", "ff\x0chere", "vt\x0bx"]
 SAFE_BARE = ["roads", "my_layer", "x1", "Foo", "bar_2", "_u", "ABC", "lakes", "3D", "2ND", "1ST_FLOOR", "4X4", "7up", "9_a", "2d_buildings",
-             "fonts.txt", "../etc/symbols.sym", "./data/shp", "data/roads.shp", "my-fonts/list.txt", "a.b.c"]
+             "fonts.txt", "../etc/symbols.sym", "./data/shp", "data/roads.shp", "my-fonts/list.txt", "a.b.c",
+             "caf\u00e9", "\u00dcn\u00efc\u00f6d\u00e9", "na\u00efve", "\u00c9cole_2", "stra\u00dfe"]
 
 
 # file-name-like words (what the PATH terminal takes unquoted); a leading slash is the listed finding about absolute paths
@@ -445,13 +448,22 @@ def make_item(p, a, r, gen_children=None):
         return Item("kv", key, shape="kv", pairs=pairs)
     if k == "config":
         kk = r.choice(["MS_ERRORFILE", "PROJ_LIB", "ON_MISSING_DATA", "ms_nonsquare", "CGI_CONTEXT_URL", "my_setting"])
-        vv = {"ON_MISSING_DATA": "IGNORE", "ms_nonsquare": "YES"}.get(kk) or rand_string(r, False, multiline_ok=False)
+        vv = {"ON_MISSING_DATA": r.choice(["IGNORE", "FAIL", "log"]), "ms_nonsquare": r.choice(["YES", "no"])}.get(kk)
+        if vv is None or r.random() < 0.3:
+            vv = rand_string(r, False, multiline_ok=False)  # (CONFIG values are free text for the validator: the schema lists them in upper case)
         return Item("config", key, shape="config", toks=[kv_tok(kk), kv_tok(vv)])
     if k == "projection":
         if r.random() < 0.2:
             return Item("projection", key, shape="projection:auto", toks=[Tok("word", "AUTO")], value=["AUTO"])
+        if r.random() < 0.06:
+            return Item("projection", key, shape="projection:0", toks=[], value=[])  # PROJECTION END: the grammar takes string*
         strs = r.choice([["init=epsg:4326"], ["init=epsg:3857"], ["proj=utm", "zone=15", "datum=NAD83", "units=m", "no_defs"],
-                         ["proj=longlat", "ellps=WGS84"]])
+                         ["proj=longlat", "ellps=WGS84"],
+                         # the same parameters as people really write them: upper case, leading +, authority names in capitals
+                         ["init=EPSG:4326"], ["+init=EPSG:27700"], ["INIT=epsg:4326"], ["init=ESRI:102003"],
+                         ["+proj=utm", "+Zone=15", "+DATUM=NAD83", "+no_defs"], ["+proj=lcc +lat_1=49 +lat_2=77 +towgs84=0,0,0"],
+                         # and projection strings are strings like any other
+                         [rand_string(r, False, multiline_ok=False) or "x"], [rand_string(r, False, multiline_ok=False) or "y", "init=epsg:4326"]])
         return Item("projection", key, shape=f"projection:{min(len(strs), 2)}", toks=[nobare(str_tok(s)) for s in strs], value=list(strs))
     if k in ("pairs", "multipairs"):
         n = r.randint(1, 5)
@@ -528,7 +540,7 @@ def gen_node(r, type_, opts, depth=1, budget=None):
         if is_req or r.random() < opts.p_key:
             a = r.choice(alts)
             it = make_item(p, a, r)
-            while opts.valid and it.shape == "expression" and "\n" in it.toks[0].text:
+            while opts.valid and ((it.shape == "expression" and "\n" in it.toks[0].text) or it.shape == "projection:0"):
                 # (the schemas' expression patterns use '.', which stops at a line break: such a literal is valid Mapfile text
                 # but not schema-valid, and "valid" documents are the ones the validation checks start from)
                 it = make_item(p, a, r)
@@ -657,7 +669,7 @@ def vocab_doc(r, obj, key, alt_index, position, member=None, enum_case=None):
         it = enum_item(p, member, r, enum_case)
     else:
         it = make_item(p, a, r)
-        while it.shape == "expression" and "\n" in it.toks[0].text:
+        while (it.shape == "expression" and "\n" in it.toks[0].text) or it.shape == "projection:0":
             it = make_item(p, a, r)  # (representatives stay schema-valid: the schemas' expression patterns stop at a line break)
     node = Node(obj)
     before = {"only": 0, "first": 0, "middle": 1, "last": 2}[position]
@@ -729,6 +741,9 @@ def place_comments(nodes, r, p_trailing=0.7, p_above=0.7):
                     if not multi and it.key not in seen and r.random() < p_trailing:
                         it.comment = text(r.choice(["#", "#", "/*"]))
                         placed.append((it.comment, "trailing", it.key, id(it)))
+                        if it.comment.startswith("#") and r.random() < 0.2:
+                            # a /* */ comment in front of the # comment on the same line: only the # comment's place is claimed
+                            it.comment = text("/*") + r.choice([" ", "  ", "\t"]) + it.comment
                     seen.add(it.key)
                 elif it.kind == "kv" and it.key in ("metadata", "validation", "connectionoptions") and r.random() < p_above:
                     cs = [text(r.choice(["#", "/*"]))]
